@@ -442,6 +442,15 @@ def factor_sites(ctx: Ctx):
                    construct=f"{fn}:outputs")
             floor = min(floor, max(1, len(pairs)))
         if len(pairs) < floor:
+            # not the library's (argmax, gather_by_index) idiom.  One form IS decidable: the selection ends in a dimension-less
+            # squeeze, which also removes the batch axis for a batch of one instance
+            sq = [c for c in ast.walk(fi.node) if isinstance(c, ast.Call) and isinstance(c.func, ast.Attribute) and c.func.attr == "squeeze" and not c.args and not c.keywords
+                  and any(isinstance(x, ast.Call) and ast.unparse(x.func).split(".")[-1] in ("take_along_dim", "gather", "index_select") for x in ast.walk(c.func.value))]
+            if sq:
+                ctx.ob("C12.c", f"{fn}:selection-keeps-the-batch-axis", False, fi.loc,
+                       f"`{ast.unparse(sq[0])[:80]}`: the best rollout is picked with a raw gather and a dimension-less squeeze -- for one instance the batch axis is squeezed away too",
+                       construct=f"{fn}:selection-squeeze-all")
+                continue
             raise AnalysisError(f"{fn}: expected >= {floor} (argmax, gather) pairs, found {len(pairs)}")
         bad = [(g, m, ag, am, agree) for g, m, ag, am, agree in pairs if ag is None or am is None or ag != am or agree is False]
         # operands regrouped by a plain view(-1, k) / reshape(-1, k): that splits the flat axis instance-major, but replicas are laid out (replica, batch)
